@@ -239,6 +239,7 @@ type pFrame struct {
 	Clear       bool // a "clear" marker instead of a frame
 	Bad         bool // generated with an interior zero
 	MotionAimed bool
+	MarkerLike  bool // first four bytes equal the first four bytes of the 'clear' marker
 }
 
 func putWordBE(b []byte, word int, v uint16) { b[2*word], b[2*word+1] = byte(v>>8), byte(v) }
